@@ -46,6 +46,7 @@ type hopConn struct {
 	mu     sync.Mutex
 	socks  []*net.UDPConn
 	via    *hopConn
+	prefix []byte // put in front of every outgoing datagram (a harmless plaintext record)
 	in     chan hopPkt
 	closed chan struct{}
 	once   sync.Once
@@ -134,7 +135,13 @@ func (h *hopConn) WriteTo(b []byte, addr net.Addr) (int, error) {
 	}
 	h.mu.Lock()
 	via := h.via
+	pre := h.prefix
 	h.mu.Unlock()
+	if len(pre) > 0 {
+		n, err := h.cur().WriteTo(append(append([]byte(nil), pre...), b...), addr)
+
+		return max(0, n-len(pre)), err
+	}
 	if via != nil {
 		return via.cur().WriteTo(b, addr)
 	}
@@ -435,6 +442,24 @@ func runListener(c LCase, r *pbt.R) {
 			hops[i].via = hops[j]
 			hops[i].mu.Unlock()
 			moved = true
+		case "hop-prefixed":
+			// like hop, and every datagram sent from the new address starts with a plaintext record the server
+			// ignores (an empty ACK, epoch 0), the connection-ID record follows in the same datagram: a client's
+			// retransmitted final flight [ClientKeyExchange][ChangeCipherSpec][Finished as tls12_cid] has this shape
+			if c.Ver != 12 {
+				kind = "write"
+
+				break
+			}
+			if err := hops[i].hop(); err != nil {
+				r.Failf("C15|harness|socket", "%v", err)
+
+				return
+			}
+			hops[i].mu.Lock()
+			hops[i].prefix = []byte{26, 0xfe, 0xfd, 0, 0, 0, 0, 0, 0, 0x70, byte(si), 0, 2, 0, 0}
+			hops[i].mu.Unlock()
+			moved = true
 		case "junk", "bigjunk":
 			// unauthenticated record with client i's server-side ID from a fresh socket; bigjunk: a datagram
 			// larger than the connection's 8192-byte read buffer
@@ -519,6 +544,11 @@ func runListener(c LCase, r *pbt.R) {
 			hops[i].via = nil
 			hops[i].mu.Unlock()
 		}
+		if kind == "hop-prefixed" {
+			hops[i].mu.Lock()
+			hops[i].prefix = nil
+			hops[i].mu.Unlock()
+		}
 		mu.Lock()
 		for _, s := range srv {
 			s.mu.Lock()
@@ -563,7 +593,7 @@ func genListener(t *rapid.T) LCase {
 	n := rapid.IntRange(1, 8).Draw(t, "n")
 	for s := 0; s < n; s++ {
 		c.Steps = append(c.Steps, LStep{
-			K: rapid.SampledFrom([]string{"write", "hop", "hop", "via", "via", "reply", "junk", "bigjunk"}).Draw(t, "k"),
+			K: rapid.SampledFrom([]string{"write", "hop", "hop", "via", "via", "reply", "junk", "bigjunk", "hop-prefixed"}).Draw(t, "k"),
 			I: rapid.IntRange(0, c.K-1).Draw(t, "i"), J: rapid.IntRange(0, c.K-1).Draw(t, "j"),
 		})
 	}
